@@ -137,6 +137,9 @@ def build(ctx, topo):
                              finish_after=c.get("finish_after"), required_idiom=c.get("required_idiom", False))
         else:
             comps[n] = HPull(n, ins[n], outs[n])
+    for c in specs:
+        if c.get("step_by"):
+            comps[c["name"]].ctrl = comps[c["step_by"]]
     order = topo.get("order") or list(range(len(specs)))
     if order == "choice":
         import itertools
